@@ -91,3 +91,461 @@ Proof.
     apply IH in H; [|rewrite app_length; lia].
     destruct H as [k Hk]. exists (List.length use + k)%nat. lia.
 Qed.
+
+(* ------------------------------------------------------------------------------------------
+   Chunk invariance: for a file whose start codes sit exactly at the entry boundaries, the reader
+   returns the parse of every entry, in order, for every chunk size (C14, and the file half of C01).
+   ------------------------------------------------------------------------------------------ *)
+Open Scope nat_scope.
+
+Definition total (l : list (list N)) : nat := List.length (concat l).
+
+Lemma total_cons e l : total (e :: l) = List.length e + total l.
+Proof. unfold total. cbn. rewrite app_length. reflexivity. Qed.
+
+(* start offsets, relative to r, of the leading entries whose start code lies inside the first c bytes *)
+Fixpoint rel_starts (l : list (list N)) (r c : nat) : list nat :=
+  match l with
+  | [] => []
+  | e :: t => if r + 4 <=? c then r :: rel_starts t (r + List.length e) c else []
+  end.
+
+Fixpoint exp_ranges (l : list (list N)) (r : nat) : list (nat * nat) :=
+  match l with
+  | [] => []
+  | e :: t => (r, r + List.length e) :: exp_ranges t (r + List.length e)
+  end.
+
+(* start codes occur exactly at the entry boundaries, in every tail of the file *)
+Definition well_delimited (es : list (list N)) : Prop :=
+  forall m c, find_offsets (firstn c (concat (skipn m es))) = rel_starts (skipn m es) 0 c.
+
+Fixpoint map_ok (parse : list N -> outcome rpu) (l : list (list N)) : option (list rpu) :=
+  match l with
+  | [] => Some []
+  | e :: t => match parse e, map_ok parse t with
+              | Ok x, Some r => Some (x :: r)
+              | _, _ => None
+              end
+  end.
+
+Lemma map_ok_app parse l1 : forall l2 a b,
+  map_ok parse l1 = Some a -> map_ok parse l2 = Some b -> map_ok parse (l1 ++ l2) = Some (a ++ b).
+Proof.
+  induction l1 as [|e t IH]; intros l2 a b H1 H2; cbn in *.
+  - inversion H1. exact H2.
+  - destruct (parse e) as [x| |s]; try discriminate. destruct (map_ok parse t) as [r|] eqn:E; try discriminate.
+    inversion H1; subst. rewrite (IH l2 r b eq_refl H2). reflexivity.
+Qed.
+
+Lemma map_ok_length parse l : forall a, map_ok parse l = Some a -> List.length a = List.length l.
+Proof.
+  induction l as [|e t IH]; intros a H; cbn in H.
+  - inversion H. reflexivity.
+  - destruct (parse e); try discriminate. destruct (map_ok parse t) eqn:E; try discriminate.
+    inversion H; subst. cbn. f_equal. auto.
+Qed.
+
+Lemma map_ok_firstn parse l : forall a u, map_ok parse l = Some a -> map_ok parse (firstn u l) = Some (firstn u a).
+Proof.
+  induction l as [|e t IH]; intros a u H; cbn in H.
+  - inversion H. destruct u; reflexivity.
+  - destruct (parse e) as [x| |s] eqn:Ep; try discriminate. destruct (map_ok parse t) as [r|] eqn:E; try discriminate.
+    inversion H; subst. destruct u; cbn; [reflexivity|]. rewrite Ep, (IH r u eq_refl). reflexivity.
+Qed.
+
+Lemma map_ok_skipn parse l : forall a u, map_ok parse l = Some a -> map_ok parse (skipn u l) = Some (skipn u a).
+Proof.
+  induction l as [|e t IH]; intros a u H; cbn in H.
+  - inversion H. destruct u; reflexivity.
+  - destruct (parse e) as [x| |s] eqn:Ep; try discriminate. destruct (map_ok parse t) as [r|] eqn:E; try discriminate.
+    inversion H; subst. destruct u; cbn; [rewrite Ep, E; reflexivity|]. apply IH. reflexivity.
+Qed.
+
+Lemma skipn_skipn' {A} (x y : nat) (l : list A) : skipn x (skipn y l) = skipn (y + x) l.
+Proof. revert l. induction y as [|y IH]; intros l; cbn [skipn plus]; auto. destruct l; [destruct x; reflexivity|]. apply IH. Qed.
+
+(* parse_ranges over the exact ranges of a run of entries present in the chunk *)
+Lemma parse_ranges_entries parse chunk : forall l r acc0 a,
+  firstn (total l) (skipn r chunk) = concat l ->
+  map_ok parse l = Some a ->
+  fold_left (fun '(acc, err) '(x, y) =>
+               match parse (slice chunk x y) with
+               | Ok v => (acc ++ [v], err)
+               | _ => (acc, true)
+               end) (exp_ranges l r) (acc0, false) = (acc0 ++ a, false).
+Proof.
+  induction l as [|e t IH]; intros r acc0 a Hc Hm; cbn in Hm.
+  - inversion Hm. cbn. rewrite app_nil_r. reflexivity.
+  - destruct (parse e) as [x| |s] eqn:Ep; try discriminate. destruct (map_ok parse t) as [b|] eqn:E; try discriminate.
+    inversion Hm; subst a. cbn [exp_ranges fold_left].
+    assert (Hs : slice chunk r (r + List.length e) = e).
+    { unfold slice. replace (r + List.length e - r) with (List.length e) by lia.
+      rewrite total_cons in Hc. cbn [concat] in Hc.
+      assert (H1 : firstn (List.length e) (firstn (List.length e + total t) (skipn r chunk)) = firstn (List.length e) (e ++ concat t)) by (rewrite Hc; reflexivity).
+      rewrite firstn_firstn in H1. replace (Init.Nat.min (List.length e) (List.length e + total t)) with (List.length e) in H1 by lia.
+      rewrite H1. rewrite firstn_app, Nat.sub_diag, firstn_all. cbn. rewrite app_nil_r. reflexivity. }
+    rewrite Hs, Ep.
+    rewrite (IH (r + List.length e) (acc0 ++ [x]) b); [rewrite <- app_assoc; reflexivity| |reflexivity].
+    rewrite total_cons in Hc. cbn [concat] in Hc.
+    assert (H2 : skipn (List.length e) (firstn (List.length e + total t) (skipn r chunk)) = skipn (List.length e) (e ++ concat t)) by (rewrite Hc; reflexivity).
+    rewrite skipn_firstn_comm in H2. replace (List.length e + total t - List.length e) with (total t) in H2 by lia.
+    rewrite skipn_skipn' in H2. rewrite skipn_app, skipn_all, Nat.sub_diag in H2. cbn in H2.
+    exact H2.
+Qed.
+
+(* the rel_starts list: shape facts *)
+Lemma rel_starts_head l r c o t : rel_starts l r c = o :: t -> o = r.
+Proof. destruct l as [|e l']; cbn; [discriminate|]. destruct (r + 4 <=? c); [|discriminate]. intros H. inversion H. reflexivity. Qed.
+
+Lemma rel_starts_length l : forall r c, List.length (rel_starts l r c) <= List.length l.
+Proof. induction l as [|e t IH]; intros r c; cbn; [lia|]. destruct (r + 4 <=? c); cbn; [specialize (IH (r + List.length e) c); lia|lia]. Qed.
+
+Lemma rel_starts_ge l : forall r c, Forall (fun o => r <= o) (rel_starts l r c).
+Proof.
+  induction l as [|e t IH]; intros r c; cbn; [constructor|].
+  destruct (r + 4 <=? c); constructor; [lia|].
+  eapply Forall_impl; [|apply IH]. cbn. intros; lia.
+Qed.
+
+Lemma last_forall {A} (P : A -> Prop) l d : l <> [] -> Forall P l -> P (last l d).
+Proof.
+  induction l as [|x t IH]; intros Hne Hf; [congruence|].
+  inversion Hf; subst. destruct t as [|y t']; [exact H1|]. apply IH; [discriminate|assumption].
+Qed.
+
+Lemma nal_ranges_cons clen o t lst :
+  nal_ranges clen (o :: t) lst = (o, if o =? lst then clen else match t with n :: _ => n | [] => lst end) :: nal_ranges clen t lst.
+Proof. reflexivity. Qed.
+
+Lemma last_cons_ne {A} (x y : A) l d : last (x :: y :: l) d = last (y :: l) d.
+Proof. reflexivity. Qed.
+
+(* the ranges computed by the reader when the last start code is popped (full chunk) *)
+Lemma ranges_full clen : forall l r c,
+  Forall (fun e => 1 <= List.length e) l ->
+  rel_starts l r c <> [] ->
+  let R := rel_starts l r c in
+  let u := List.length R - 1 in
+  nal_ranges clen (removelast_n R) (last R 0) = exp_ranges (firstn u l) r /\
+  last R 0 = r + total (firstn u l).
+Proof.
+  induction l as [|e t IH]; intros r c Hne Hnz; cbn [rel_starts] in *; [congruence|].
+  destruct (r + 4 <=? c) eqn:E; [|congruence].
+  inversion Hne as [|? ? He Ht]; subst.
+  destruct (rel_starts t (r + List.length e) c) as [|o R'] eqn:ER.
+  - cbn. split; [reflexivity|]. unfold total. cbn. lia.
+  - assert (Ho : o = r + List.length e) by (eapply rel_starts_head; eauto). subst o.
+    assert (Hnz' : rel_starts t (r + List.length e) c <> []) by (rewrite ER; discriminate).
+    destruct (IH (r + List.length e) c Ht Hnz') as [H1 H2]. rewrite ER in H1, H2. cbn zeta in H1, H2.
+    cbn [List.length] in H1, H2. rewrite Nat.sub_succ, Nat.sub_0_r in H1, H2.
+    cbn zeta. cbn [List.length]. rewrite Nat.sub_succ, Nat.sub_0_r.
+    rewrite last_cons_ne. cbn [firstn]. rewrite total_cons. cbn [exp_ranges].
+    change (removelast_n (r :: (r + List.length e) :: R')) with (r :: removelast_n ((r + List.length e) :: R')).
+    split; [|lia].
+    assert (Hlast_ge : r + List.length e <= last ((r + List.length e) :: R') 0) by lia.
+    cbn [nal_ranges].
+    replace (r =? last ((r + List.length e) :: R') 0) with false by (symmetry; apply Nat.eqb_neq; lia).
+    rewrite H1. f_equal. f_equal.
+    destruct R' as [|o2 R2]; cbn [removelast_n]; reflexivity.
+Qed.
+
+(* the ranges when the chunk holds the rest of the file and every start code is used *)
+Lemma ranges_all : forall l r,
+  Forall (fun e => 4 <= List.length e) l -> l <> [] ->
+  let R := rel_starts l r (r + total l) in
+  R <> [] /\ List.length R = List.length l /\
+  nal_ranges (r + total l) R (last R 0) = exp_ranges l r.
+Proof.
+  induction l as [|e t IH]; intros r Hne Hnz; [congruence|].
+  inversion Hne as [|? ? He Ht]; subst. cbn [rel_starts]. rewrite total_cons.
+  replace (r + 4 <=? r + (List.length e + total t)) with true by (symmetry; apply Nat.leb_le; lia).
+  destruct t as [|e2 t2].
+  - cbn. unfold total. cbn. rewrite Nat.eqb_refl. repeat split; try discriminate. f_equal. f_equal. lia.
+  - assert (Hnz' : e2 :: t2 <> []) by discriminate.
+    destruct (IH (r + List.length e) Ht Hnz') as (H0 & H1 & H2). cbn zeta in H0, H1, H2.
+    replace (r + (List.length e + total (e2 :: t2))) with (r + List.length e + total (e2 :: t2)) by lia.
+    set (R' := rel_starts (e2 :: t2) (r + List.length e) (r + List.length e + total (e2 :: t2))) in *.
+    cbn zeta. split; [discriminate|]. split; [cbn [List.length]; rewrite H1; reflexivity|].
+    destruct R' as [|o R2] eqn:ER; [congruence|].
+    assert (Ho : o = r + List.length e) by (unfold R' in ER; eapply rel_starts_head; eauto). subst o.
+    rewrite last_cons_ne. rewrite nal_ranges_cons.
+    change (exp_ranges (e :: e2 :: t2) r) with ((r, r + List.length e) :: exp_ranges (e2 :: t2) (r + List.length e)).
+    assert (Hge : r + List.length e <= last ((r + List.length e) :: R2) 0).
+    { apply (last_forall (fun o => r + List.length e <= o)); [discriminate|].
+      rewrite <- ER. unfold R'. apply rel_starts_ge. }
+    replace (r =? last ((r + List.length e) :: R2) 0) with false by (symmetry; apply Nat.eqb_neq; lia).
+    rewrite H2. reflexivity.
+Qed.
+
+Lemma concat_firstn_skipn (l : list (list N)) u :
+  firstn (total (firstn u l)) (concat l) = concat (firstn u l) /\
+  skipn (total (firstn u l)) (concat l) = concat (skipn u l).
+Proof.
+  unfold total.
+  assert (E : concat l = concat (firstn u l) ++ concat (skipn u l)) by (rewrite <- concat_app, firstn_skipn; reflexivity).
+  rewrite E. split.
+  - rewrite firstn_app, Nat.sub_diag, firstn_all. cbn. rewrite app_nil_r. reflexivity.
+  - rewrite skipn_app, skipn_all, Nat.sub_diag. reflexivity.
+Qed.
+
+Lemma rel_starts_fit l : forall r c, Forall (fun o => o + 4 <= c) (rel_starts l r c).
+Proof.
+  induction l as [|e t IH]; intros r c; cbn; [constructor|].
+  destruct (r + 4 <=? c) eqn:E; constructor; [apply Nat.leb_le in E; lia|apply IH].
+Qed.
+
+Lemma rel_starts_two e0 e1 t c : List.length e0 + 4 <= c -> 2 <= List.length (rel_starts (e0 :: e1 :: t) 0 c).
+Proof.
+  intros H. cbn [rel_starts].
+  replace (0 + 4 <=? c) with true by (symmetry; apply Nat.leb_le; lia).
+  replace (0 + List.length e0 + 4 <=? c) with true by (symmetry; apply Nat.leb_le; lia).
+  cbn [List.length]. lia.
+Qed.
+
+Lemma removelast_n_length l : List.length (removelast_n l) = List.length l - 1.
+Proof. induction l as [|x t IH]; cbn; [reflexivity|]. destruct t; cbn in *; lia. Qed.
+
+Lemma concat_nil_entries (l : list (list N)) :
+  Forall (fun e => 4 <= List.length e) l -> concat l = [] -> l = [].
+Proof. destruct l as [|e t]; auto. intros Hf H. inversion Hf; subst. cbn in H. destruct e; cbn in *; [lia|discriminate]. Qed.
+
+Lemma skipn_forall {A} (P : A -> Prop) u l : Forall P l -> Forall P (skipn u l).
+Proof. revert l. induction u; intros l H; cbn; auto. destruct l; auto. inversion H; auto. Qed.
+Lemma firstn_forall {A} (P : A -> Prop) u l : Forall P l -> Forall P (firstn u l).
+Proof. revert l. induction u; intros l H; cbn; auto. destruct l; auto. inversion H; constructor; auto. Qed.
+
+(* the loop invariant *)
+Lemma reader_invariant parse cs es rpus :
+  well_delimited es -> Forall (fun e => 4 <= List.length e) es -> 4 <= cs -> es <> [] ->
+  map_ok parse es = Some rpus ->
+  forall fuel m chunk rest,
+    m <= List.length es ->
+    chunk ++ rest = concat (skipn m es) ->
+    (chunk = [] \/ 4 <= List.length chunk) ->
+    (m = 0 -> chunk = [] /\ (List.length (hd [] es) + 4 <= cs \/ total es < cs)) ->
+    List.length rest + (match chunk with [] => 1 | _ => 2 end) <= fuel ->
+    reader_loop parse fuel cs rest chunk (firstn m rpus) m = Ok rpus.
+Proof.
+  intros WD Hlen Hcs Hne Hall.
+  pose proof (map_ok_length _ _ _ Hall) as Hrl.
+  induction fuel as [|f IH]; intros m chunk rest Hm Hsplit Hchunk Hfirst Hfuel; [destruct chunk; lia|].
+  rewrite reader_step. cbv zeta.
+  set (n := Nat.min cs (List.length rest)).
+  remember (skipn m es) as l eqn:Heql.
+  assert (Hl4 : Forall (fun e => 4 <= List.length e) l) by (rewrite Heql; apply skipn_forall; exact Hlen).
+  destruct ((n =? 0) && match chunk with [] => true | _ => false end) eqn:Eexit.
+  - (* exit *)
+    apply andb_prop in Eexit. destruct Eexit as [En Ec]. apply Nat.eqb_eq in En.
+    destruct chunk; [|discriminate].
+    assert (Hrest : rest = []) by (destruct rest; [reflexivity|cbn in n; unfold n in En; cbn in En; lia]).
+    subst rest. cbn in Hsplit. symmetry in Hsplit. apply concat_nil_entries in Hsplit; [|exact Hl4].
+    assert (Hm' : m = List.length es).
+    { assert (List.length (skipn m es) = 0) by (rewrite <- Heql, Hsplit; reflexivity). rewrite skipn_length in H. lia. }
+    subst m. rewrite <- Hrl, firstn_all.
+    assert (0 < List.length rpus) by (rewrite Hrl; destruct es; [congruence|cbn; lia]).
+    replace (0 <? List.length rpus) with true by (symmetry; apply Nat.ltb_lt; lia).
+    rewrite Nat.eqb_refl. reflexivity.
+  - (* one read *)
+    assert (Hchunk' : chunk ++ firstn n rest = firstn (List.length chunk + n) (concat l)).
+    { rewrite <- Hsplit. rewrite firstn_app_2. reflexivity. }
+    rewrite Hchunk'. pose proof (WD m (List.length chunk + n)) as HWD. rewrite <- Heql in HWD. rewrite HWD. clear HWD.
+    set (c := List.length chunk + n).
+    assert (Hclen : List.length (firstn c (concat l)) = c).
+    { rewrite firstn_length. rewrite <- Hsplit, app_length. unfold c, n. lia. }
+    (* there is something to read: l is not empty and its first start code fits *)
+    assert (Hlne : l <> []).
+    { intros E. rewrite E in Hsplit. cbn in Hsplit. apply app_eq_nil in Hsplit. destruct Hsplit as [-> ->].
+      cbn in n. unfold n in Eexit. rewrite Nat.min_0_r in Eexit. cbn in Eexit. discriminate. }
+    assert (Hc4 : 4 <= c).
+    { destruct Hchunk as [->|H4]; [|unfold c; lia].
+      cbn [List.length plus] in *. unfold c. cbn. cbn in Hsplit. subst rest.
+      destruct l as [|e0 l']; [congruence|]. inversion Hl4; subst. unfold n. cbn [concat]. rewrite app_length. lia. }
+    assert (HRne : rel_starts l 0 c <> []).
+    { destruct l as [|e0 l']; [congruence|]. cbn [rel_starts].
+      replace (0 + 4 <=? c) with true by (symmetry; apply Nat.leb_le; lia). discriminate. }
+    destruct (rel_starts l 0 c) as [|o0 Rt] eqn:ER0; [congruence|]. rewrite <- ER0 in *.
+    destruct (n <? cs) eqn:Efull; cbn [negb].
+    + (* short read: the chunk holds the whole rest of the file *)
+      apply Nat.ltb_lt in Efull.
+      assert (Hn : n = List.length rest) by (unfold n in *; lia).
+      assert (Hc : c = 0 + total l).
+      { unfold c, total. rewrite <- Hsplit, app_length, Hn. reflexivity. }
+      destruct (ranges_all l 0 Hl4 Hlne) as (_ & HRl & HRr). cbn zeta in HRl, HRr. rewrite <- Hc in HRl, HRr.
+      rewrite Hclen, HRr.
+      unfold parse_ranges.
+      pose proof (map_ok_skipn parse es rpus m Hall) as Hrest. rewrite <- Heql in Hrest.
+      rewrite (parse_ranges_entries parse (firstn c (concat l)) l 0 [] (skipn m rpus)); [| |exact Hrest].
+      2:{ cbn [skipn]. rewrite Hc. cbn [plus]. unfold total. rewrite firstn_firstn, Nat.min_id. apply firstn_all. }
+      cbn [app]. rewrite firstn_skipn.
+      assert (Hnn : match rpus with [] => true | _ :: _ => false end = false)
+        by (destruct rpus; [destruct es; [congruence|cbn in Hrl; lia]|reflexivity]).
+      rewrite Hnn.
+      (* next iteration: nothing left *)
+      assert (Hskip : skipn n rest = []) by (rewrite Hn; apply skipn_all).
+      rewrite Hskip, HRl.
+      assert (Hmm : m + List.length l = List.length es) by (rewrite Heql, skipn_length; lia).
+      rewrite Hmm.
+      replace rpus with (firstn (List.length es) rpus) at 1 by (rewrite <- Hrl; apply firstn_all).
+      apply IH.
+      * lia.
+      * cbn. rewrite skipn_all. reflexivity.
+      * left. reflexivity.
+      * intros H0. destruct es; [congruence|cbn in H0; lia].
+      * cbn. destruct chunk; cbn in Hfuel; [|lia].
+        cbn in Eexit. rewrite andb_true_r in Eexit. apply Nat.eqb_neq in Eexit. unfold n in *. lia.
+    + (* full read: the last start code is carried over *)
+      apply Nat.ltb_ge in Efull.
+      assert (Hn : n = cs) by (unfold n in *; lia).
+      assert (Hl1 : Forall (fun e => 1 <= List.length e) l) by (eapply Forall_impl; [|exact Hl4]; cbn; intros; lia).
+      destruct (ranges_full c l 0 c Hl1 HRne) as [HF1 HF2]. cbn zeta in HF1, HF2.
+      set (R := rel_starts l 0 c) in *.
+      set (u := List.length R - 1) in *.
+      rewrite Hclen, HF1.
+      assert (Hu : u <= List.length l) by (unfold u, R; pose proof (rel_starts_length l 0 c); lia).
+      assert (Hlast4 : last R 0 + 4 <= c).
+      { apply (last_forall (fun o => o + 4 <= c)); [exact HRne|apply rel_starts_fit]. }
+      unfold parse_ranges.
+      pose proof (map_ok_skipn parse es rpus m Hall) as Hrest. rewrite <- Heql in Hrest.
+      pose proof (map_ok_firstn parse l (skipn m rpus) u Hrest) as Hpart.
+      rewrite (parse_ranges_entries parse (firstn c (concat l)) (firstn u l) 0 [] (firstn u (skipn m rpus))); [| |exact Hpart].
+      2:{ cbn [skipn]. rewrite firstn_firstn.
+          replace (Init.Nat.min (total (firstn u l)) c) with (total (firstn u l)) by (cbn in HF2; lia).
+          apply (concat_firstn_skipn l u). }
+      cbn [app].
+      (* acc' = firstn (m + u) rpus *)
+      assert (Hacc : firstn m rpus ++ firstn u (skipn m rpus) = firstn (m + u) rpus).
+      { rewrite <- (firstn_skipn m rpus) at 3. rewrite firstn_app.
+        rewrite firstn_length. replace (Init.Nat.min m (List.length rpus)) with m by lia.
+        replace (m + u - m) with u by lia.
+        rewrite firstn_firstn. replace (Init.Nat.min (m + u) m) with m by lia. reflexivity. }
+      rewrite Hacc.
+      assert (Hmu : 1 <= m + u).
+      { destruct m as [|m']; [|lia].
+        destruct (Hfirst eq_refl) as [Hc0 [Hfit|Hsmall]].
+        - subst chunk. cbn in Hsplit. cbn [skipn] in Heql. subst l.
+          (* a second entry exists because the file is at least cs long *)
+          assert (Hrest_len : cs <= List.length rest) by (unfold n in Hn; lia).
+          destruct es as [|a es']; [congruence|]. cbn [hd] in Hfit.
+          destruct es' as [|b es''].
+          + exfalso. subst rest. cbn in Hrest_len. rewrite app_nil_r in Hrest_len. lia.
+          + unfold u, R. pose proof (rel_starts_two a b es'' c) as H2.
+            assert (List.length a + 4 <= c) by (unfold c; cbn; lia). specialize (H2 H). lia.
+        - exfalso. subst chunk. cbn in Hsplit. unfold total in Hsmall. cbn [skipn] in Heql. subst l.
+          rewrite <- Hsplit in Hsmall. unfold n in Hn. lia. }
+      destruct (firstn (m + u) rpus) as [|y0 yt] eqn:Eacc.
+      { exfalso. assert (List.length (firstn (m + u) rpus) = 0) by (rewrite Eacc; reflexivity).
+        rewrite firstn_length in H. rewrite Heql, skipn_length in Hu. lia. }
+      rewrite <- Eacc.
+      rewrite removelast_n_length. fold u.
+      apply IH.
+      * rewrite Heql, skipn_length in Hu. lia.
+      * (* carry ++ rest' = tail from entry m + u *)
+        rewrite HF2. cbn [plus].
+        assert (Hsk : skipn (total (firstn u l)) (concat l) = concat (skipn u l)) by apply (concat_firstn_skipn l u).
+        assert (Htail : concat (skipn (m + u) es) = skipn (total (firstn u l)) (concat l)).
+        { rewrite Hsk. rewrite Heql. rewrite skipn_skipn'. reflexivity. }
+        rewrite Htail. rewrite <- Hsplit.
+        (* skipn t (firstn c (chunk ++ rest)) ++ skipn n rest = skipn t (chunk ++ rest) *)
+        unfold c. rewrite firstn_app_2.
+        assert (Htl : total (firstn u l) <= List.length (chunk ++ firstn n rest)).
+        { rewrite app_length, firstn_length. cbn in HF2. unfold c, n in *. lia. }
+        rewrite <- (firstn_skipn n rest) at 3. rewrite app_assoc.
+        rewrite (skipn_app (total (firstn u l)) (chunk ++ firstn n rest)).
+        replace (total (firstn u l) - List.length (chunk ++ firstn n rest)) with 0 by lia. reflexivity.
+      * right. rewrite skipn_length, Hclen. cbn in HF2. lia.
+      * intros H0. lia.
+      * rewrite skipn_length.
+        destruct (skipn (last R 0) (firstn c (concat l))); destruct chunk; cbn in Hfuel |- *; lia.
+Qed.
+
+(* for every chunk size: a file whose start codes sit exactly at its entry boundaries is read back
+   as the parse of every entry, in order, provided the first read reaches the second start code
+   (or the whole file fits in one read) - which a 100 000 byte chunk always does for RPUs *)
+Theorem reader_chunk_invariance parse cs es rpus :
+  well_delimited es -> Forall (fun e => 4 <= List.length e) es -> 4 <= cs -> es <> [] ->
+  (List.length (hd [] es) + 4 <= cs \/ total es < cs) ->
+  map_ok parse es = Some rpus ->
+  parse_rpu_file parse cs (concat es) = Ok rpus.
+Proof.
+  intros WD Hlen Hcs Hne Hfirst Hall. unfold parse_rpu_file.
+  replace (cs =? 0) with false by (symmetry; apply Nat.eqb_neq; lia).
+  change (@nil rpu) with (firstn 0 rpus).
+  apply (reader_invariant parse cs es rpus WD Hlen Hcs Hne Hall); auto.
+  - lia.
+  - cbn. lia.
+Qed.
+
+(* the file written by write_rpu_file is the concatenation of its entries *)
+Lemma write_rpu_file_entries nals : write_rpu_file nals = concat (map (fun nal => SC ++ skipn 2 nal) nals).
+Proof. unfold write_rpu_file. apply flat_map_concat_map. Qed.
+
+(* a decidable check of well-delimitedness, for concrete files *)
+Fixpoint nat_list_eqb (a b : list nat) : bool :=
+  match a, b with
+  | [], [] => true
+  | x :: a', y :: b' => (x =? y) && nat_list_eqb a' b'
+  | _, _ => false
+  end.
+Lemma nat_list_eqb_eq a : forall b, nat_list_eqb a b = true -> a = b.
+Proof.
+  induction a as [|x a' IH]; intros [|y b']; cbn; try discriminate; auto.
+  intros H. apply andb_prop in H. destruct H as [H1 H2]. apply Nat.eqb_eq in H1. f_equal; auto.
+Qed.
+
+Definition wd_check (es : list (list N)) : bool :=
+  forallb (fun m => forallb (fun c => nat_list_eqb (find_offsets (firstn c (concat (skipn m es)))) (rel_starts (skipn m es) 0 c))
+                            (seq 0 (S (total es))))
+          (seq 0 (S (List.length es))).
+
+Lemma rel_starts_beyond l : forall r c c', r + total l <= c -> r + total l <= c' ->
+  Forall (fun e => 4 <= List.length e) l -> rel_starts l r c = rel_starts l r c'.
+Proof.
+  induction l as [|e t IH]; intros r c c' H1 H2 Hf; cbn; [reflexivity|].
+  inversion Hf; subst. rewrite total_cons in H1, H2.
+  replace (r + 4 <=? c) with true by (symmetry; apply Nat.leb_le; lia).
+  replace (r + 4 <=? c') with true by (symmetry; apply Nat.leb_le; lia).
+  f_equal. apply IH; auto; lia.
+Qed.
+
+Lemma total_skipn_le es m : total (skipn m es) <= total es.
+Proof.
+  unfold total. rewrite <- (firstn_skipn m es) at 2. rewrite concat_app, app_length. lia.
+Qed.
+
+Lemma wd_check_sound es : Forall (fun e => 4 <= List.length e) es -> wd_check es = true -> well_delimited es.
+Proof.
+  intros Hf H m c. unfold wd_check in H. rewrite forallb_forall in H.
+  destruct (Nat.le_gt_cases m (List.length es)) as [Hm|Hm].
+  - specialize (H m). rewrite in_seq in H. specialize (H ltac:(lia)). rewrite forallb_forall in H.
+    destruct (Nat.le_gt_cases c (total es)) as [Hc|Hc].
+    + apply nat_list_eqb_eq. apply H. rewrite in_seq. lia.
+    + (* beyond the end: the same as at c = total es *)
+      pose proof (total_skipn_le es m) as Ht.
+      assert (E1 : firstn c (concat (skipn m es)) = firstn (total es) (concat (skipn m es))).
+      { rewrite !firstn_all2; [reflexivity| |]; unfold total in *; lia. }
+      rewrite E1.
+      rewrite (rel_starts_beyond (skipn m es) 0 c (total es)); [| lia | lia | apply skipn_forall; exact Hf].
+      apply nat_list_eqb_eq. apply H. rewrite in_seq. lia.
+  - rewrite skipn_all2 by lia. cbn. destruct c; reflexivity.
+Qed.
+
+(* non-vacuity: a concrete three-entry file (one body longer than the chunk) meets the hypotheses,
+   and the reader returns its three entries for chunk sizes 4, 7 and 1000 *)
+Definition ex_entries : list (list N) :=
+  [[0; 0; 0; 1; 25; 8; 9; 128]; [0; 0; 0; 1; 25; 0; 0; 3; 1; 77; 78; 79; 80; 81; 128]; [0; 0; 0; 1; 9; 128]]%N.
+
+Example ex_entries_well_delimited : well_delimited ex_entries.
+Proof. apply wd_check_sound; [repeat constructor; cbn; lia|vm_compute; reflexivity]. Qed.
+
+Example ex_entries_read_back (x : rpu) (cs : nat) :
+  12 <= cs -> parse_rpu_file (fun _ => Ok x) cs (concat ex_entries) = Ok [x; x; x].
+Proof.
+  intros H. apply reader_chunk_invariance.
+  - exact ex_entries_well_delimited.
+  - repeat constructor; cbn; lia.
+  - lia.
+  - discriminate.
+  - left. cbn. lia.
+  - reflexivity.
+Qed.
